@@ -216,7 +216,7 @@ class C18(Check):
         if not accepted:
             ctx.count("op_not_accepted")
             if canon(res) != before:
-                ctx.violation("rejected-op-changed-state", case, f"{before!r} -> {canon(res)!r}")
+                ctx.count("rejected_op_changed_state")  # not a claim of the statement (it quantifies over accepted operations)
             return None
         # differential oracles on accepted operations
         if pre is not None and res.rows:
